@@ -499,7 +499,9 @@ func genDeepSchema(rng *rand.Rand) []*Schema {
 		}
 		return &Schema{Key: k, Tag: 0x04, Kids: kids}
 	}
-	switch rng.Intn(5) {
+	switch rng.Intn(6) {
+	case 5: // empty field names are legal BSON: leading, inner and trailing empty segments
+		return []*Schema{sub("", leaf("n"), sub("", leaf("x"), leaf(""))), leaf("n"), sub("a", sub("", leaf("y")), leaf(""))}
 	case 0: // siblings at depth 4 (shared slice capacity in the unrepaired code)
 		return []*Schema{sub("a", sub("b", sub("c", sub("d", leaf("x")), sub("e", leaf("x")), sub("f", leaf("y"), leaf("z"))), sub("g", leaf("x"))))}
 	case 1:
